@@ -7,6 +7,7 @@ require (
 	github.com/redis/rueidis/mock v1.0.76
 	github.com/redis/rueidis/om v0.0.0
 	github.com/redis/rueidis/rueidisaside v0.0.0
+	github.com/redis/rueidis/zzverif/luamini v0.0.0
 )
 
 require (
@@ -22,3 +23,5 @@ replace github.com/redis/rueidis/mock => /repo/mock
 replace github.com/redis/rueidis/om => /repo/om
 
 replace github.com/redis/rueidis/rueidisaside => /repo/rueidisaside
+
+replace github.com/redis/rueidis/zzverif/luamini => /verif/harness/luamini
